@@ -220,6 +220,8 @@ func init() {
 		mutant{Name: "map-index2-miss-leaves-value-stale", Prop: "C01", File: "interp/run.go", Old: "\t\t\t\tv := value0(f).MapIndex(value1(f))\n\t\t\t\tif v.IsValid() {\n\t\t\t\t\tdest(f).Set(v)\n\t\t\t\t} else {\n\t\t\t\t\tdest(f).Set(z)\n\t\t\t\t}\n\t\t\t\tif doStatus {", New: "\t\t\t\tv := value0(f).MapIndex(value1(f))\n\t\t\t\tif v.IsValid() {\n\t\t\t\t\tdest(f).Set(v)\n\t\t\t\t}\n\t\t\t\tif doStatus {", Rule: "R01.8", Key: "getIndexMap2/closure#4/result-stored-on-every-path"},
 		mutant{Name: "range-blank-value-stored-at-slot-zero", Prop: "C01", File: "interp/run.go", Old: "\t\t\t\tif i >= a.Len() {\n\t\t\t\t\treturn fnext\n\t\t\t\t}\n\t\t\t\tif doValue {\n\t\t\t\t\tf.data[index1].Set(a.Index(i))\n\t\t\t\t}\n", New: "\t\t\t\tif i >= a.Len() {\n\t\t\t\t\treturn fnext\n\t\t\t\t}\n\t\t\t\tf.data[index1].Set(a.Index(i))\n", Rule: "R01.10", Key: "_range/blank-value-not-stored"},
 		mutant{Name: "range-string-key-only-uses-rune-index", Prop: "C01", File: "interp/run.go", Old: "\t\t\t\tpos := a.Slice(0, i).Convert(stringType).Len()\n\t\t\t\tf.data[index0].SetInt(int64(pos))\n\t\t\t\treturn tnext\n", New: "\t\t\t\tf.data[index0].SetInt(int64(i))\n\t\t\t\t_ = stringType\n\t\t\t\treturn tnext\n", Rule: "R01.9", Key: "_range/string-variant#2/byte-offsets"},
+		mutant{Name: "loop-variable-idiom-ignores-the-source", Prop: "C01", File: "interp/cfg.go", Old: "if fi != nil && dest.ident == fi.ident && src.kind == identExpr && src.ident == dest.ident {", New: "if fi != nil && dest.ident == fi.ident {", Rule: "R01.11", Key: "cfg/loop-variable-idiom#1/source-is-the-variable"},
+		mutant{Name: "multi-value-declaration-not-retried", Prop: "C15", File: "interp/gta.go", Old: "\t\t\tif err2 := compDefineX(sc, n); err2 != nil {\n", New: "\t\t\tif err = compDefineX(sc, n); err != nil {\n\t\t\t\treturn false\n\t\t\t}\n\t\t\tif err2 := error(nil); err2 != nil {\n", Rule: "R15.8", Key: "gta/case:defineXStmt/unresolved-is-retried"},
 		// ---- C18
 		mutant{Name: "var-bound-by-value-in-generator", Prop: "C18", File: "extract/extract.go", Old: "\t\t\tval[name] = Val{pname, true}", New: "\t\t\tval[name] = Val{pname, false}", Rule: "R18.2", Key: "genContent/addr-only-for-vars"},
 		mutant{Name: "template-forwards-wrong-field", Prop: "C18", File: "extract/extract.go", Old: "\t\t\t{{- $m.Ret}} W.W{{$m.Name}}{{$m.Arg -}}", New: "\t\t\t{{- $m.Ret}} W.{{$m.Name}}{{$m.Arg -}}", Rule: "R18.3", Key: "model/wrapper-method"},
